@@ -27,12 +27,12 @@ ASSUMPTIONS = [
 
 def cases(tier):
     out = []
-    reps = 6 if tier == "quick" else 220
+    reps = 6 if tier == "quick" else 1500
     for p in PREDICATES:
         for r in range(reps):
             out.append(("pred", p, r))
     for h in ["vec", "tensor", "gram", "todm", "commutant", "majorizes", "spark", "norms"]:
-        for r in range(20 if tier == "quick" else 600):
+        for r in range(20 if tier == "quick" else 4000):
             out.append(("helper", h, r))
     return out
 
